@@ -58,6 +58,7 @@ def run(ctx, col, tier):
     from ..rules import sortedness as _sortedness
     _sortedness.run(ctx, col, ('swcgeom.core.swc_utils.normalizer', 'swcgeom.core.swc_utils.base', 'swcgeom.core.swc_utils.io', 'swcgeom.core.tree_utils'))
     col.guard(reset_before_sort, ctx, col)
+    col.guard(inplace_permutation, ctx, col)
     from ..rules import stateless as _stateless_memo
     _stateless_memo.run_memo(ctx, col)
     col.rule("R-UNIF", "the row permutation is applied to the container's whole key set, every "
@@ -136,6 +137,30 @@ def table_gather_keys(ctx, col, rule):
                 col.bad(rule, d.qualname, d.loc(lp), "the permutation covers every column of the table",
                         f"the row permutation runs over `{it}` only: columns outside it (extra columns) keep their old row order "
                         f"and end up on the wrong nodes", stmt="gather-keys", definite=True)
+
+
+def inplace_permutation(ctx, col):
+    """Rows are permuted INTO NEW arrays.  `v[:] = v[perm]` inside a loop over the columns of a tree permutes a buffer once per key that holds it: two keys may
+    hold the same array (extra columns built from one array; deepcopy keeps the sharing), and that buffer is then permuted twice."""
+    col.rule("R-INPLACEPERM", "the row permutation builds new column arrays: no `v[:] = v[perm]` over the columns of a tree (a buffer shared by two keys would be permuted once "
+             "per key and no longer follow the relabelling); zero expected", floor=1)
+    hits = 0
+    for q in (f"{TU}._sort_tree", f"{NORM}.sort_nodes_"):
+        d = ctx.repo.get_def(q)
+        for lp in [n for n in own_nodes(d) if isinstance(n, ast.For)]:
+            it = norm_src(lp.iter)
+            if not any(w in it for w in ("ndata", ".values()", ".items()", ".keys()", "columns")):
+                continue
+            for st in ast.walk(lp):
+                if isinstance(st, ast.Assign) and len(st.targets) == 1 and isinstance(st.targets[0], ast.Subscript) and isinstance(st.value, ast.Subscript) \
+                        and norm_src(st.targets[0].value) == norm_src(st.value.value) and isinstance(st.targets[0].slice, (ast.Slice, ast.Constant)) \
+                        and not isinstance(st.value.slice, (ast.Slice, ast.Constant)):
+                    hits += 1
+                    col.bad("R-INPLACEPERM", d.qualname, d.loc(st), "the row permutation builds new column arrays",
+                            f"`{norm_src(st)}` permutes each column's buffer in place, once per key: a tree whose columns share one array under two keys gets that buffer permuted "
+                            f"twice, so those columns no longer belong to their nodes after sorting / re-rooting / concatenation", stmt="inplace-perm", definite=True)
+    if not hits:
+        col.ok("R-INPLACEPERM", f"{TU}._sort_tree", "", "the row permutation builds new column arrays", "no in-place permutation of a column inside a loop over the columns", stmt="inplace-perm")
 
 
 def tree_gather_keys(ctx, col, rule):
